@@ -168,8 +168,15 @@ def evaluate(case) -> Outcome:
         sid = Sid(t + ":" + m.render(t, f))
         if not sid:
             continue
-        for k in m.keys(t):
-            s = m.render(t, dict(f, **{k: ">"}))
+        # keys of the Sid itself, and the key of the NEXT level (when every type one level deeper ends in the same key)
+        deeper = [x for x in m.types if m.keys(x)[:-1] == m.keys(t) and m.basetype(x) == m.basetype(t)]
+        nxt = {m.keys(x)[-1] for x in deeper}
+        for k in m.keys(t) + (sorted(nxt) if len(nxt) == 1 else []):
+            if k in f:
+                s = m.render(t, dict(f, **{k: ">"}))
+            else:
+                s = m.render(t, f) + "/>"
+                out.label("get_last:next-level-key")
             try:
                 res = world.search(s, "all")
             except refsearch.RefSpilException:
